@@ -12,6 +12,8 @@ CHECKS = {
  'C04': ('for every directive attribute within the bounds (fully symbolic v-/vX names of 3..6 (quick) or 3..8 (thorough) characters incl. _ suffixes, namespaced v-x:arg_mod with symbolic parts, all value shapes, element and component hosts, co-occurring attributes and directives) Z3 shows on every path of the real visitor MIR that exactly one runtime binding with the written name/value/argument/modifiers is emitted (v-html/v-text: the innerHTML/textContent prop) and that props, children and type equal those of the same element without the directive', '4 C04'),
  'C03': ('for every component element skeleton within the bounds (bound/unbound/member hosts, <=2 (quick) / <=3 (thorough) children of every kind incl. symbolic texts, v-slots forms, enableObjectSlots and optimize symbolic) Z3 shows on every path that the emitted third argument denotes the slots of the statement: default wrapper returning the children in order, function child as default, object child as the slots object, v-slots merged, runtime conditional through a helper whose body is evaluated over the runtime value kinds, call child evaluated once through a declared temporary', '4 C03'),
  'C05': ('for every v-model / v-models skeleton within the bounds (16 hosts incl. input with static / dynamic / braces-constant / spread-supplied type, select, textarea, other element, component; 16 spellings incl. suffix modifiers, v-model:arg, array forms with string or computed argument and modifier lists; identifier/member/index targets; co-occurring attributes; v-models lists vs the explicit v-model sequence in the same module) Z3 shows on every path that the emitted binding is the one the statement describes and that the generated listener is `$event => (target) = $event`; one fixture-locked deviation is a known finding', '4 C05'),
+ 'C12': ('relational: a stride sample of the C01/C03/C04/C05/C13 skeleton spaces plus all nested component trees is executed twice on the same path condition (optimize=false / true, other options symbolic and shared); Z3 shows on every path that the two outputs are equal once hint arguments and `_` keys are erased, that optimize=false emits no hints, and that the imported helpers are the same', '4 C12'),
+ 'C15': ('for every module skeleton within the bounds (comment texts fully symbolic over Unicode up to 7 (quick) / 9 (thorough) code points plus 16 candidate annotation texts; block/JSDoc/line comments at the file head, before a later statement and inside a function; pragma option absent/present) Z3 shows on every path that every vnode call in the module (top level, nested, inside a function) uses exactly the name the statement derives from the comments/option, and that createVNode is imported iff used', '4 C15'),
  'C13': ('for every attribute multiset within the bounds (kind x name table incl. symbolic attribute names, spreads, v-model with computed argument, directives, v-html/v-text, on objects; element and component hosts; nested component trees for slot flags) with optimize on, Z3 shows on every path that flag / dynamic-prop list / slot `_` satisfy each clause of the statement, evaluated on the emitted props', '4 C13'),
  'C02': ('two kernels. (1) util::transform_text: for every JSX text of <=4 (quick) / <=6 (thorough) code points over the full Unicode alphabet Z3 shows the cleaned text equals the JSX whitespace rule on every path. (2) child-list construction: for element/Fragment/KeepAlive/custom-element skeletons with <=2 (quick) / <=3 (thorough) children of every kind (symbolic texts of 1..3 code points in every position, expressions, empties, comments, spread children, nested elements/fragments) Z3 shows the emitted children denote the written ones in order. Counterexamples are replayed on the native build before being reported; two Babel-compatible deviations are listed as known findings', '4 C02'),
 }
